@@ -112,7 +112,7 @@ PROGS_S["translate"] = [("translate", "m", "v", "t"), ("mult", "T", "m", "t2"), 
                         ("translate", "t", "nv", "back")]
 INPUTS_S = dict(INPUTS)
 INPUTS_S["translate"] = ["m", "v", "nv", "T", "O"]
-SCALED_CFG = {"quick": {"Mats": "GenS", "MatsFew": "FewS", "MatsOne": "OneS"},
+SCALED_CFG = {"quick": {"Mats": "GenQ", "MatsFew": "OneS", "MatsOne": "OneS"},
               "thorough": {"Mats": "GenS", "MatsFew": "FewS", "MatsOne": "FewS"}}
 MAGNITUDE = Fraction(10 ** 6)          # the value the formal magnitude symbol T of AffineScaled.tla is realised with
 
@@ -286,8 +286,8 @@ def affine_replay(ck, res, emit):
 PLANE_INV = ["LiveOK", "IterInsertionOrder", "FindSound", "FindComplete", "GridCoherent", "FindSetAgrees",
              "ImplLive", "ImplIter", "ImplFindSound", "ImplFindComplete", "ImplSameWhenNoDev"]
 PLANE_RUNS = {
-    "quick": [("SeqQuick", 5, 1), ("GeoQuick", 2, 0)],          # (setups, MaxOps, MaxDup)
-    "thorough": [("SeqFull", 6, 2), ("GeoFull", 2, 0)],
+    "quick": [("SeqQuick", 4, 1, 1, 2, 2), ("GeoQuick", 2, 0, 1, 1, 1)],          # (setups, MaxOps, MaxDup, MaxRej, MaxOdd, ObsDepth)
+    "thorough": [("SeqFull", 6, 2, 1, 2, 3), ("GeoFull", 3, 0, 1, 1, 1)],
 }
 
 
@@ -298,7 +298,7 @@ def has_dup_add(hist):
             if o in live:
                 return True
             live.add(o)
-        else:
+        elif op == "remove":
             live.discard(o)
     return False
 
@@ -308,7 +308,7 @@ def has_readd(hist):
     for op, o in hist:
         if op == "remove":
             gone.add(o)
-        elif o in gone:
+        elif op == "add" and o in gone:
             return True
     return False
 
@@ -333,6 +333,11 @@ def classify_state(ck, r, real, mode, dev, stats):
             failures.append(("find-incomplete", "find(%r) returned %r; must contain %r" % (su["qs"][i], got, sorted(must)), coded))
     if not real["pure"]:
         failures.append(("observation-impure", "find/iteration changed the index", False))
+    if not real.get("rejected_raised", True):
+        stats["no_keyerror"] = stats.get("no_keyerror", 0) + 1
+        if stats["no_keyerror"] <= 3:
+            ck.note("remove() of an object that is not in the index did not raise KeyError (history %r) - the answers of the "
+                    "index are judged all the same" % (hist,))
     gm = {(c[0], c[1]): lst for c, lst in M["grid"]}
     same_as_coded = (real["it"] == M["it"] and [sorted(x) for x in real["f"]] == [sorted(x) for x in M["f"]]
                      and real["objs"] == sorted(M["objs"]))
@@ -369,11 +374,11 @@ def classify_state(ck, r, real, mode, dev, stats):
 
 
 def plane_tlc(ck, dev, run, workers):
-    (setups, maxops, dup) = run
+    (setups, maxops, dup, rej, odd, obs) = run
     cfg = write_cfg(os.path.join(ck.tmp, "c20_plane_%s.cfg" % setups),
-                    constants={"Setups": "<- " + setups, "MaxOps": maxops, "MaxDup": dup,
+                    constants={"Setups": "<- " + setups, "MaxOps": maxops, "MaxDup": dup, "MaxRej": rej, "MaxOdd": odd, "ObsDepth": obs,
                                "Dev": tla_set(dev) if dev else "<- NoDev"},
-                    invariants=PLANE_INV, properties=["ObservationsPure"], constraints=["EmitState"])
+                    invariants=PLANE_INV, properties=["ObservationsPure", "RejectedChangesNothing"], constraints=["EmitState"])
     emit = os.path.join(ck.tmp, "c20_plane_%s.ndjson" % setups)
     return run_tlc(PLANE_SPEC, cfg, emit=emit, coverage=(ck.tier == "quick" and setups.startswith("Seq")), timeout=7200,
                    workers=workers), emit
@@ -381,15 +386,15 @@ def plane_tlc(ck, dev, run, workers):
 
 def plane_replay(ck, dev, runs_done):
     stats = {"drift": 0, "hits": {}}
-    for (setups, maxops, dup), (res, emit) in runs_done:
-        ck.add_tlc(res, "Plane: %s, histories <= %d, <= %s duplicate adds, Dev=%s" % (setups, maxops, dup, dev))
+    for (setups, maxops, dup, rej, odd, obs), (res, emit) in runs_done:
+        ck.add_tlc(res, "Plane: %s, histories <= %d, <= %s duplicate adds, <= %s rejected removes, Dev=%s" % (setups, maxops, dup, rej, dev))
         if not res.ok:
             st = res.error_trace[-1][1] if res.error_trace else {}
             ck.violation("model:" + str(res.violated), "TLC: %s violated on the Plane specification (history %s)"
                          % (res.violated, st.get("hist", "?")), {"tlc": res.error_text[:4000]})
             continue
         if res.actions:
-            require_coverage(res, ["AAdd", "ARemove", "AFind", "AIter"])
+            require_coverage(res, ["AAdd", "ARemove", "ARemoveRejected", "AFind", "AIter"])
         n = 0
         modes = ("frac", "float", "mixed")
         with open(emit) as f:
@@ -440,7 +445,7 @@ def refutations_tlc(ck, dev):
 
     def one(d):
         cfg = write_cfg(os.path.join(ck.tmp, "c20_refute_%s.cfg" % d),
-                        constants={"Setups": "<- SeqQuick", "MaxOps": 3, "MaxDup": 3, "Dev": tla_set([d])},
+                        constants={"Setups": "<- SeqQuick", "MaxOps": 3, "MaxDup": 3, "MaxRej": 0, "MaxOdd": 3, "ObsDepth": 3, "Dev": tla_set([d])},
                         invariants=[strict[d]])
         return run_tlc(PLANE_SPEC, cfg, workers=2, timeout=600)
 
@@ -543,6 +548,13 @@ def synthetic_traces(ck, rng, dev):
                     plane.remove(o)
                     live.remove(o)
                     gone.append(o)
+                elif x < 0.59:          # a rejected call: remove() of an object that was never added or is gone already
+                    cand = [o for o in objs if o not in live]
+                    if cand:
+                        try:
+                            plane.remove(rng.choice(cand))
+                        except KeyError:
+                            pass
                 elif x < 0.92:
                     if live and rng.random() < 0.6:      # neighbourhood of a live object, like find_neighbors/isany
                         o = rng.choice(live)
